@@ -39,6 +39,9 @@ func rulesC07(c *Ctx) {
 	c.Floor("C07.DROP", 150)
 	ruleHolder(c, "C07.HOLDER", c.prodFuncs("boltz"), nil)
 	c.Floor("C07.HOLDER", 15)
+	ruleOverwrite(c, "C07.OVERWRITE", fns)
+	c.Floor("C07.OVERWRITE", 8)
+	ruleHolderReplaced(c, "C07.HOLDERPTR")
 	ruleFirstErrorWins(c, "C07.FIRSTERR")
 	c.Floor("C07.FIRSTERR", 8)
 	ruleTxFn(c, "C07.TXFN")
@@ -898,4 +901,73 @@ func isHolderIface(t types.Type) bool {
 		}
 	}
 	return n == 3
+}
+
+// ruleHolderReplaced: the embedded *ErrorHolderImpl of a bucket may be re-pointed only on a bucket
+// created in the same function (sharing an existing holder with a fresh bucket). Re-pointing a
+// bucket that came in through a parameter/receiver throws away whatever it had already recorded.
+func ruleHolderReplaced(c *Ctx, rule string) {
+	p := c.P
+	h := newHolderInfo(c)
+	n := 0
+	for _, fn := range c.prodFuncs("boltz") {
+		for _, b := range fn.Blocks {
+			for _, in := range b.Instrs {
+				st, ok := in.(*ssa.Store)
+				if !ok {
+					continue
+				}
+				f, base := fieldOfAddr(st.Addr)
+				if f == nil || !f.Embedded() || namedOf(f.Type()) != h.holderImpl || namedOf(base.Type()) != h.typedBucket {
+					continue
+				}
+				if _, isAlloc := base.(*ssa.Alloc); isAlloc {
+					continue // composite literal of a new bucket
+				}
+				n++
+				name := FnName(fn)
+				c.Analysed(name)
+				// the bucket being re-pointed must be fresh: a call result in this function (possibly read back from a
+				// struct under construction), not something reachable from a parameter
+				fresh := false
+				var root func(v ssa.Value, depth int) ssa.Value
+				root = func(v ssa.Value, depth int) ssa.Value {
+					if depth > 6 {
+						return v
+					}
+					switch x := v.(type) {
+					case *ssa.UnOp:
+						if fa, ok := x.X.(*ssa.FieldAddr); ok {
+							// value read from a field: look for the store into the same cell in this function
+							for _, b2 := range fn.Blocks {
+								for _, in2 := range b2.Instrs {
+									if st2, ok := in2.(*ssa.Store); ok {
+										if fa2, ok := st2.Addr.(*ssa.FieldAddr); ok && fa2.Field == fa.Field && fa2.X == fa.X {
+											return root(st2.Val, depth+1)
+										}
+									}
+								}
+							}
+							return root(fa.X, depth+1)
+						}
+						return root(x.X, depth+1)
+					case *ssa.FieldAddr:
+						return root(x.X, depth+1)
+					}
+					return v
+				}
+				r := root(base, 0)
+				if _, isCall := r.(*ssa.Call); isCall {
+					fresh = true
+				}
+				if _, isAlloc := r.(*ssa.Alloc); isAlloc {
+					fresh = true
+				}
+				c.Check(fresh, rule, name, p.Pos(st.Pos()), "the error holder is shared INTO a bucket obtained in this function", "the error holder of an existing bucket ("+describeValue(r)+") is replaced: errors it had already recorded (e.g. a constraint veto) are forgotten")
+			}
+		}
+	}
+	if n == 0 {
+		c.OK(rule, "boltz", "-", "no bucket has its error holder re-pointed")
+	}
 }
